@@ -148,6 +148,28 @@ fn gen_program(w: &mut Rng, l: &mut Rng) -> Program {
     // query variables 0 and 1 receive results; 2 and 3 are the projected variables
     let x = 2;
     let y = 3;
+    if g.w.chance(1, 6) {
+        // The projected name already denotes a structure (as for a relation parameter called with
+        // a list, or an outer project whose value still contains an unbound variable); the
+        // variable inside it is bound between the outer and the inner project, in several ways.
+        let shape = match g.w.below(3) {
+            0 => T::list(vec![T::V(y)]),
+            1 => T::list(vec![T::V(y), T::I(g.w.range(0, 3))]),
+            _ => T::cons(T::V(y), T::V(y)),
+        };
+        let mut inner = vec![g.binder(y, None)];
+        if g.w.chance(1, 2) {
+            inner.push(g.suspension());
+        }
+        let body = g.body(&[x], &[], &[0, 1], 0);
+        inner.push(G::Project(vec![x], body));
+        let mut goals = vec![G::Eq(T::V(x), shape)];
+        if g.w.chance(1, 3) {
+            goals.push(g.suspension());
+        }
+        goals.push(G::Project(vec![x], inner));
+        return Program { nq: 2, defs: vec![], body: vec![G::Fresh(vec![x, y], goals)] };
+    }
     let mut goals = vec![g.binder(x, Some(y))];
     let two = g.w.chance(1, 3);
     let bind_y = two || g.w.chance(2, 3);
